@@ -58,6 +58,24 @@ def run(ctx: Ctx) -> None:
     quick = ctx.tier == "quick"
     cases = lc.build_cases(ctx, 60 if quick else 500, [4, 6, 8, 10], with_corpus=True)
     cases = [c for c in cases if 2 <= len(c["jobs"]) <= 40]
+    # job sets with counted multisets (the same event type 1, 2 or 3 times in parallel): the count clause of the
+    # model file.  Outside fragment F's distinct names, so only the model layer and diagram stability are judged.
+    for _ in range(12 if quick else 80):
+        r = ctx.rng
+        b = r.choice(["B", "Bx", "K"])
+        counts = r.sample([1, 2, 3], k=r.choice([2, 3]))
+        jobs = []
+        for n in counts:
+            nodes = [{"id": 0, "typ": "A", "prev": []}]
+            nodes += [{"id": 1 + i, "typ": b, "prev": [0]} for i in range(n)]
+            nodes.append({"id": n + 1, "typ": "C", "prev": list(range(1, n + 1))})
+            jobs.append(nodes)
+        if r.random() < 0.5:
+            jobs.append([{"id": 0, "typ": "A", "prev": []}, {"id": 1, "typ": "D", "prev": [0]},
+                         {"id": 2, "typ": "C", "prev": [1]}])
+        cases.append({"kind": "counted", "blk": ["seq", [["ev", f"counted {b} x{sorted(counts)}"]]], "jobs": jobs,
+                      "classes": []})
+        ctx.tick("def_counted")
     ctx.cov["rule"] = (
         "job sets (2-40 jobs) of fragment-F definitions and the corpus in a shuffled order; ordered splits into 2 and 3 "
         "chunks (every cut point for sets <= 6 jobs in the thorough tier, a seeded 5 otherwise), every chunk boundary "
